@@ -37,6 +37,8 @@ type Op struct {
 	Key int    `json:"key,omitempty"` //
 	Val string `json:"val,omitempty"`
 	N   int    `json:"n,omitempty"` // scan length (0 = all)
+	Hi  int    `json:"hi,omitempty"` // range upper bound (range/rrange: keys in [Key,Hi])
+	Pad int    `json:"pad,omitempty"` // value padded to this many bytes
 }
 
 // Txn is one client transaction.
@@ -379,6 +381,12 @@ func (e *Env) runTxn(t *sim.Task, tx *Txn, phase, attempt int) *TxnResult {
 func (e *Env) doOp(ctx context.Context, b b3, op *Op) (or OpResult) {
 	var ok bool
 	var err error
+	if op.Pad > 0 {
+		cp := *op
+		cp.Val = padVal(op.Val, op.Pad)
+		cp.Pad = 0
+		op = &cp
+	}
 	switch op.K {
 	case "add":
 		ok, err = b.Add(ctx, op.Key, op.Val)
@@ -398,6 +406,7 @@ func (e *Env) doOp(ctx context.Context, b b3, op *Op) (or OpResult) {
 		ok, err = b.Find(ctx, op.Key, true)
 		if ok && err == nil {
 			or.Val, err = b.GetCurrentValue(ctx)
+			or.Val = unpad(or.Val)
 		}
 	case "count":
 		or.Count = b.Count()
@@ -417,7 +426,7 @@ func (e *Env) doOp(ctx context.Context, b b3, op *Op) (or OpResult) {
 			if err != nil {
 				break
 			}
-			or.Items = append(or.Items, KV{k, v})
+			or.Items = append(or.Items, KV{k, unpad(v)})
 			n++
 			if op.N > 0 && n >= op.N {
 				break
@@ -429,6 +438,113 @@ func (e *Env) doOp(ctx context.Context, b b3, op *Op) (or OpResult) {
 			}
 		}
 		ok = true
+	case "range": // ascending range scan [Key,Hi] starting from a Find that may miss
+		_, err = b.Find(ctx, op.Key, true)
+		if err != nil {
+			break
+		}
+		cur := b.GetCurrentKey()
+		has := !cur.ID.IsNil()
+		if has && cur.Key < op.Key {
+			has, err = b.Next(ctx)
+		}
+		for has && err == nil {
+			k := b.GetCurrentKey().Key
+			if k > op.Hi {
+				break
+			}
+			var v string
+			v, err = b.GetCurrentValue(ctx)
+			if err != nil {
+				break
+			}
+			or.Items = append(or.Items, KV{k, unpad(v)})
+			has, err = b.Next(ctx)
+		}
+		ok = true
+	case "rrange": // descending range scan [Key,Hi] from FindInDescendingOrder(Hi)
+		_, err = b.FindInDescendingOrder(ctx, op.Hi)
+		if err != nil {
+			break
+		}
+		cur := b.GetCurrentKey()
+		has := !cur.ID.IsNil()
+		if has && cur.Key > op.Hi {
+			has, err = b.Previous(ctx)
+		}
+		for has && err == nil {
+			k := b.GetCurrentKey().Key
+			if k < op.Key {
+				break
+			}
+			var v string
+			v, err = b.GetCurrentValue(ctx)
+			if err != nil {
+				break
+			}
+			or.Items = append(or.Items, KV{k, unpad(v)})
+			has, err = b.Previous(ctx)
+		}
+		ok = true
+	case "findfirst": // Find(first) then walk forward over the equal keys
+		ok, err = b.Find(ctx, op.Key, true)
+		has := ok
+		for has && err == nil {
+			k := b.GetCurrentKey().Key
+			if k != op.Key {
+				break
+			}
+			var v string
+			v, err = b.GetCurrentValue(ctx)
+			if err != nil {
+				break
+			}
+			or.Items = append(or.Items, KV{k, unpad(v)})
+			has, err = b.Next(ctx)
+		}
+	case "finddesc": // FindInDescendingOrder then walk backward over the equal keys
+		ok, err = b.FindInDescendingOrder(ctx, op.Key)
+		has := ok
+		for has && err == nil {
+			k := b.GetCurrentKey().Key
+			if k != op.Key {
+				break
+			}
+			var v string
+			v, err = b.GetCurrentValue(ctx)
+			if err != nil {
+				break
+			}
+			or.Items = append(or.Items, KV{k, unpad(v)})
+			has, err = b.Previous(ctx)
+		}
+	case "findid": // FindWithID on the N-th duplicate of Key
+		ok, err = b.Find(ctx, op.Key, true)
+		var ids []sop.UUID
+		has := ok
+		for has && err == nil {
+			ck := b.GetCurrentKey()
+			if ck.Key != op.Key {
+				break
+			}
+			var v string
+			v, err = b.GetCurrentValue(ctx)
+			if err != nil {
+				break
+			}
+			ids = append(ids, ck.ID)
+			or.Items = append(or.Items, KV{ck.Key, unpad(v)})
+			has, err = b.Next(ctx)
+		}
+		if err == nil && len(ids) > 0 {
+			want := op.N % len(ids)
+			ok, err = b.FindWithID(ctx, op.Key, ids[want])
+			if ok && err == nil {
+				or.Val, err = b.GetCurrentValue(ctx)
+				or.Val = unpad(or.Val)
+				or.Count = int64(want)
+			}
+		}
 	default:
 		err = fmt.Errorf("unknown op %q", op.K)
 	}
@@ -546,7 +662,7 @@ func (e *Env) Observe(phase int, label string) Observation {
 			if err != nil {
 				break
 			}
-			d.Items = append(d.Items, KV{k, v})
+			d.Items = append(d.Items, KV{k, unpad(v)})
 			ok, err = b.Next(ctx)
 		}
 		if err != nil {
@@ -560,7 +676,7 @@ func (e *Env) Observe(phase int, label string) Observation {
 			if err != nil {
 				break
 			}
-			d.Back = append(d.Back, KV{k, v})
+			d.Back = append(d.Back, KV{k, unpad(v)})
 			ok, err = b.Previous(ctx)
 		}
 		if err != nil && d.ScanErr == "" {
@@ -613,6 +729,22 @@ func Execute(c *Case) (res *Result) {
 	res.Steps = e.S.Steps()
 	res.FilesAtEnd = e.W.ListFiles()
 	return res
+}
+
+// padVal pads a value token to n bytes (deterministically).
+func padVal(v string, n int) string {
+	if len(v) >= n {
+		return v
+	}
+	return v + "|" + strings.Repeat("x", n-len(v)-1)
+}
+
+// unpad strips the padding.
+func unpad(v string) string {
+	if i := strings.IndexByte(v, '|'); i >= 0 {
+		return v[:i]
+	}
+	return v
 }
 
 // ---- model helpers ---------------------------------------------------------------------------
